@@ -93,7 +93,7 @@ def run_case(desc):
 
 class RoundTrip(Facet):
     name = "roundtrip"
-    examples = {"quick": 5000, "thorough": 100000}
+    examples = {"quick": 5000, "thorough": 300000}
     shards = {"quick": 16, "thorough": 16}
 
     def strategy(self, tier):
